@@ -151,6 +151,11 @@ def h_spsolve_mixed(seq):
         out = []
         pending = True                      # a new solver starts with the refresh flag set
         for k, (v, op) in enumerate(seq):
+            if op == 'clear':
+                S.clear()
+                out.append((f'call {k}: clear() drops the cached factorisation (a C object that a snapshot cannot serialise)', getattr(S, 'lu', None) is None))
+                pending = True              # the next solve must factorise the matrix it is given
+                continue
             if op == 'linsolve':
                 x = lin(S, Mat(0, v), np.zeros(2))
                 out.append((f'call {k}: the one-shot entry point returns the solution of the matrix it was given', bool(np.all(x == float(v)))))
@@ -318,7 +323,8 @@ def main():
     for seq in itertools.product([(0, 'none'), (1, 'none'), (1, 'factorize'), (2, 'new_A')], repeat=3 if thorough else 2):
         jobs.append(('sp', seq))
     ops = [(0, 'solve'), (1, 'linsolve'), (2, 'solve+refresh'), (3, 'solve')]
-    jobs += [('spmix', seq) for seq in itertools.permutations(ops, 3)] + [('spmix', ((0, 'solve'), (1, 'solve+refresh'))), ('spmix', ((0, 'solve+refresh'), (1, 'linsolve'), (2, 'solve')))]
+    jobs += [('spmix', seq) for seq in itertools.permutations(ops, 3)] + [('spmix', ((0, 'solve'), (1, 'solve+refresh'))), ('spmix', ((0, 'solve+refresh'), (1, 'linsolve'), (2, 'solve'))),
+             ('spmix', ((0, 'solve'), (0, 'clear'), (1, 'solve'))), ('spmix', ((0, 'solve'), (1, 'linsolve'), (0, 'clear'), (2, 'solve')))]
     jobs += [('step', (h_, lc)) for h_ in (0, 1) for lc in (True, False)] + [('nr', m) for m in ('NR', 'dishonest')] + [('ipadd', 0)]
     ck.merge(core.pmap(job, jobs))
     ck.sample({'sequence': '(pattern 0, version 0) > (pattern 1, version 2) > (pattern 0, version 1)', 'symbolic': 'matrix_k_is_singular'})
